@@ -69,3 +69,13 @@ package daemon
 //@   loop 1 invariant defaultIfSet <==> (exists k int :: 0 <= k && k < i && primaryIf(netConf[k].IfName))
 //@   loop 2 invariant 0 <= i && i <= len(netConf)
 //@   loop 2 invariant forall k int :: 0 <= k && k < i ==> !primaryIf(netConf[k].IfName)
+
+//@ for C03
+
+//@ # the API server confirmed, on this very path, that the pod no longer exists
+//@ ghost c03absent bool = false
+//@ func networkService.cleanRuntimeNode
+//@   at call Kubernetes.PodExist: ghost c03absent = (!result0 && result1 == nil)
+
+//@ # the node agent reports a teardown it did not process itself only for a pod it verified to be gone
+//@ guard mapupdate CNIStatus in cleanRuntimeNode: key != "deleted" || c03absent
